@@ -12,8 +12,13 @@ pub struct Impl { pub plugin: Plugin }
 #[derive(PartialEq, Eq, Structural, Clone, Copy)]
 //@ end
 
+/// qbice_stable_type_id::StableTypeID (128 bits) and the Identifiable constant of a column type
+#[derive(Clone, Copy, PartialEq, Eq, Structural)]
+pub struct StableTypeID(pub u64, pub u64);
+pub trait Identifiable { const STABLE_TYPE_ID: StableTypeID; }
+
 /// interface stand-in for `WideColumn` (only the parts the key scheme uses)
-pub trait WideColumn {
+pub trait WideColumn: Identifiable {
     type Discriminant: Encode;
     type Key: Encode;
     /// assumption: `discriminant_encoding()` is a constant of the column type
@@ -21,7 +26,7 @@ pub trait WideColumn {
     fn discriminant_encoding() -> (r: DiscriminantEncoding) ensures r == Self::enc();
 }
 /// interface stand-in for `WideColumnValue`
-pub trait WideColumnValue<C: WideColumn> {
+pub trait WideColumnValue<C: WideColumn>: Encode {
     /// assumption: `discriminant()` is a constant of the value type
     spec fn disc() -> C::Discriminant;
     fn discriminant() -> (r: C::Discriminant) ensures r == Self::disc();
